@@ -529,6 +529,10 @@ fn parts(ctx: &Ctx) -> Vec<PartSpec> {
     let mut v = vec![PartSpec::new("install-fails", json!({"install": true})), PartSpec::new("install-ok-recover", json!({"install_ok": true})), PartSpec::new("install-ok-drop", json!({"install_ok": false})), PartSpec::new("second-instance-after-contended-recovery", json!({"second": true}))];
     if ctx.quick() {
         v.extend([e1("recover", 3), e1("drop", 3), e1("recover-1emitter", 4), e1("recover-unwinding", 3), e1("drop-unwinding", 3)]);
+        let mut imp = e1("recover", 2);
+        imp.name = "e1-recover-impatient-waits-pb2".into();
+        imp.arg["impatient"] = json!(24);
+        v.push(imp);
     } else {
         v.extend([e1("recover", 4).budget(1500.0), e1("drop", 4).budget(1500.0), e1("recover-1emitter", 6).budget(1500.0), e1("recover-3", 3).budget(1500.0), e1("recover-unwinding", 4).budget(1500.0), e1("drop-unwinding", 4).budget(1500.0)]);
     }
@@ -550,6 +554,11 @@ fn run(ctx: &Ctx, spec: &PartSpec) -> PartResult {
         return res;
     }
     let pb = spec.arg["pb"].as_u64().unwrap_or(3) as usize;
+    if let Some(k) = spec.arg["impatient"].as_u64() {
+        // impatient waits (see vsched::IMPATIENT): into_inner's retry loop runs 24 times at once while an emission is
+        // parked inside the recorder
+        vsched::IMPATIENT.store(k as u32, std::sync::atomic::Ordering::Relaxed);
+    }
     let scn = match spec.arg["e1"].as_str().unwrap_or("") {
         "recover" => scenario("emitter(describe_gauge, register_counter+increment) || emitter(describe_counter) || into_inner", vec![vec![0, 1], vec![2]], true),
         "drop" => scenario("emitter(describe_gauge, register_counter+increment) || emitter(describe_counter) || drop(handle)", vec![vec![0, 1], vec![2]], false),
